@@ -329,8 +329,13 @@ bool Xml::Private::parse(const char* data, Element& element)
         pos.pos = end + 2;
         break;
       }
-      pos.pos = end + 1;
-      skipSpace();
+      if(*end == '?')
+        pos.pos = end + 1;
+      else
+      {
+        pos.pos = end; // a line break: skipSpace counts it
+        skipSpace();
+      }
     }
     skipSpace();
   }
